@@ -49,6 +49,7 @@ structure St where
   jschemas : List (Nat × Js.Json) := []
   eys : List (Nat × Ey.CG) := []
   lxs : List (Nat × Lx.Cfg) := []
+  elx : Option (EngCfg Lx.St × EngState Lx.St) := none
 
 /-- DFA over byte classes: `cls[b]` in `0..k`, `trans[q*k + c]` = successor, `≥ n` = dead. -/
 structure TDfa where
@@ -847,6 +848,41 @@ def handleLx (st : St) (args : List String) : St × String :=
     | _, _ => (st, "bad-op")
   | _ => (st, "bad-op")
 
+
+/-- token-level engine (M6) over the byte-level engine M5: `elx init <lxid> <words> <eos>`, `elx mask`,
+`elx commit t`, `elx validate ts`, `elx acc` -/
+def handleElx (st : St) (args : List String) : St × String :=
+  match args with
+  | ["init", id, ws, eos] =>
+    match parseNat? id, parseHexList? ws, parseNat? eos with
+    | some id, some ws, some eos =>
+      match st.lxs.find? (·.1 = id) with
+      | some (_, C) =>
+        let cfg : EngCfg Lx.St := { recog := { step := fun s b => Lx.push C s b }, accepting := fun s => Lx.isAccepting C s, words := ws, eos := eos }
+        ({ st with elx := some (cfg, { st := Lx.init C, tokens := [], stopped := false }) }, "ok")
+      | none => (st, "no-such-lx")
+    | _, _, _ => (st, "bad-op")
+  | ["mask"] =>
+    match st.elx with
+    | some (c, s) => (st, s!"ok {showNatList (canonSet (c.mask s))}")
+    | none => (st, "no-engine")
+  | ["acc"] =>
+    match st.elx with
+    | some (c, s) => (st, s!"ok {showBool (c.accepting s.st)}")
+    | none => (st, "no-engine")
+  | ["commit", t] =>
+    match st.elx, parseNat? t with
+    | some (c, s), some t =>
+      match c.commit s t with
+      | some s' => ({ st with elx := some (c, s') }, "ok")
+      | none => (st, "err")
+    | _, _ => (st, "bad-op")
+  | ["validate", ts] =>
+    match st.elx, parseNatList? ts with
+    | some (c, s), some ts => (st, s!"ok {c.validate s ts}")
+    | _, _ => (st, "bad-op")
+  | _ => (st, "bad-op")
+
 def step (st : St) (line : String) : St × String :=
   match words line with
   | "parcopy" :: args => (st, handleParcopy args)
@@ -867,6 +903,7 @@ def step (st : St) (line : String) : St × String :=
   | "json" :: args => handleJson st args
   | "ey" :: args => handleEy st args
   | "lx" :: args => handleLx st args
+  | "elx" :: args => handleElx st args
   | "sch" :: args => (st, handleSch args)
   | "rb" :: args => handleRb st args
   | ["reset"] => ({}, "ok")
